@@ -63,6 +63,32 @@ class Canon:
                         out[name] = body[0].value
         return out
 
+    def _await_identity(self, name: str) -> bool:
+        cache = self.__dict__.setdefault("_ai_cache", {})
+        if name in cache:
+            return cache[name]
+        ok = False
+        for f in self.p.all_funcs:
+            if f.name != name or not f.is_async:
+                continue
+            prm = [q for q in f.params if q not in ("self", "cls")]
+            if len(prm) != 1:
+                continue
+            body = [st for st in f.node.body if not (isinstance(st, ast.Expr) and isinstance(st.value, ast.Constant))]
+
+            def plumbing(st):
+                if isinstance(st, ast.If) and "isawaitable" in ast.unparse(st.test) and prm[0] in ast.unparse(st.test):
+                    return all(plumbing(x) for x in st.body) and all(plumbing(x) for x in st.orelse)
+                if isinstance(st, ast.Expr) and isinstance(st.value, ast.Await) and ast.unparse(st.value.value) == prm[0]:
+                    return True
+                if isinstance(st, ast.Return) and (st.value is None or ast.unparse(st.value) in (prm[0], f"await {prm[0]}")):
+                    return True
+                return False
+            if body and all(plumbing(st) for st in body):
+                ok = True
+        cache[name] = ok
+        return ok
+
     def text(self, e: ast.AST, depth: int = 0) -> str:
         return ast.unparse(self._c(self._copy(e), depth, {}))
 
@@ -81,6 +107,14 @@ class Canon:
         class T(ast.NodeTransformer):
             def visit_Await(self, n):
                 return self.visit(n.value)
+
+            def visit_Call(self, n):
+                # ``await self._maybe_await(x.stop())``: a helper that only awaits its argument when it is awaitable is plumbing,
+                # exactly like the inline ``r = x.stop(); if inspect.isawaitable(r): await r`` it replaces
+                name = n.func.attr if isinstance(n.func, ast.Attribute) else (n.func.id if isinstance(n.func, ast.Name) else None)
+                if name and len(n.args) == 1 and not n.keywords and me._await_identity(name):
+                    return self.visit(n.args[0])
+                return self.generic_visit(n)
 
             def visit_Name(self, n):
                 if n.id in bound:
@@ -260,6 +294,8 @@ def extract(program: Program, func: FuncInfo, renames: Dict[str, str],
                 if recv in SKIP_CALLS:
                     continue
                 if recv == "self":
+                    if len(c.args) == 1 and not c.keywords and cn._await_identity(fn.attr):
+                        continue          # await plumbing; the wrapped call is recorded on its own
                     name = renames.get(fn.attr, fn.attr)
                     if fn.attr in inline:
                         sub = extract(program, inline[fn.attr], renames, None, _param_map(inline[fn.attr], c, cn))
